@@ -32,6 +32,26 @@ CLAIMED = {
             "For three class shapes (per-member, whole-class, unexposed; instance/static/class methods, properties, plain attributes, helper objects, base-class members, oneway marks), all five request kinds, every member name of up to L code points (L=12 quick, 20 thorough) or a non-string, and arbitrary remaining flag bits: a member's code runs only if the name denotes a member the declarative Exposed(shape) table allows for that request kind; refused requests leave the object unchanged and get exactly one error reply (none when oneway); served requests get one result reply; get_metadata equals the table and served implies advertised. Two genuine violation classes are known findings.",
             "Trusted: z3, the meta-interpreter (paths re-run natively on their models), the codec boundary stub (payload token <-> python value), uuid/thread/traceback stubs. Outside: classes with __getattr__/metaclass tricks, names longer than the bound, the codecs themselves.",
             "DESIGN.md section 4 C02"),
+    "C08": (E1, "symbolic execution of the real _handshake, thread-server job and multiplex event path (AST meta-interpreter + z3) with a symbolic first message and a pipelined second message",
+            "For both server types: first message with symbolic type (0..255), serializer id (0..255), flags, seq; seven payload shapes; eight validator behaviours (accept / raise, incl. unprintable and ConnectionClosedError); registered or arbitrary unknown object id (symbolic string); an INVOKE pipelined behind it. The connection is admitted (CONNECTOK, job loop entered / selector registration) iff it is a CONNECT with a known serializer, well-formed payload, accepting validator and registered object; otherwise nothing is executed, nothing more is read, the socket is closed and a CONNECTFAIL with the reason is sent whenever one can be encoded.",
+            "Trusted: z3, meta-interpreter (paths re-run natively), codec boundary stub, fake socket/selector. Outside: real sockets, payload shapes beyond the seven listed. One known finding (validator raising ConnectionClosedError gets no CONNECTFAIL).",
+            "DESIGN.md section 4 C08"),
+    "C12": (E1, "symbolic execution of the real handleRequest/_handshake/_sendExceptionResponse/_OnewayCallThread context handling (AST meta-interpreter + z3) over two consecutive requests of different clients on one serving thread",
+            "Step 1: client A's request (returning, raising, oneway, batch, unknown member/object) whose method sets a response annotation and records the context it sees; optionally A vanishes before its reply is sent; step 2 on the same thread: client B's call / raising call / ping / handshake / batch; the oneway thread runs before or after step 2 on its own helper thread; seq, flags, serializer ids symbolic. Checked: every method sees exactly its own request's connection, peer, seq, flags, serializer, annotations and correlation id; no reply to B carries A's annotation; the serving thread's response annotations are empty again after each request. Two genuine leak classes are known findings.",
+            "Trusted: z3, meta-interpreter (paths re-run natively), codec stub, uuid/thread stubs (thread bodies run on a real helper thread at a harness-chosen point). Outside: true parallelism of the oneway thread with the serving thread (only the two orders before/after step 2), the client side.",
+            "DESIGN.md section 4 C12"),
+    "C09": (E1, "symbolic execution of the real Daemon._getInstance / behavior / SocketConnection.close (AST meta-interpreter + z3), one inductive step from an arbitrary table pre-state with symbolic instance truthiness",
+            "For each mode (single, session, percall, invalid), creator behaviour (none, returns instance, wrong type, raises), instance shape (plain, __len__-falsy with symbolic length, __bool__ with symbolic value, all-equal __eq__/__hash__) and every pre-state of the daemon-wide and per-connection tables: existing instances are reused by identity with zero creations, missing ones are created exactly once and stored in the right table, percall stores nothing, sessions are never shared between connections, close() drops the session table even when shutdown() fails. The concurrent first-call race of 'single' is not yet covered (schedule engine pending). One known finding (falsy instances are recreated).",
+            "Trusted: z3, meta-interpreter (paths re-run natively). Outside: thread interleavings of concurrent first calls (planned under the schedule BMC engine).",
+            "DESIGN.md section 4 C09"),
+    "C13": (E1, "symbolic execution of the real thread-server job loop / multiplex events loop, SocketConnection.close and _clientDisconnect (AST meta-interpreter + z3) over all ways a connection ends",
+            "An established connection (0 or 1 requests served, 0..4 tracked resources half of which fail on close, one untracked again, a session instance) ends by orderly EOF, reset, timeout, a request cut at every byte offset 1..47 (symbolic), 40 arbitrary garbage bytes, a SecurityError or an ordinary error followed by EOF; disconnect hook may raise; shutdown() may fail; both server types; a second connection stays open. Checked: hook called exactly once with this connection, every tracked resource closed exactly once (also after a second close()), untracked ones never, session table empty, socket closed, worker/selector slot released, the other connection, its resource, session and selector slot untouched.",
+            "Trusted: z3, meta-interpreter (paths re-run natively), fake sockets/selector. Outside: connections that never completed the handshake, daemon shutdown, real GC of SocketConnection.",
+            "DESIGN.md section 4 C13"),
+    "C05": (E1, "symbolic execution of the real server layers end to end per connection (job loop, multiplex events, accept-loop refusal path, _handshake, handleRequest, _sendExceptionResponse, recv_stub) with symbolic attacker bytes / symbolic framed requests, followed by a witness call and a fresh handshake",
+            "(garbage) N arbitrary symbolic bytes with every prefix truncation then eof/timeout(/reset), as first message or after a valid handshake; (structured) a framed request with symbolic type, serializer id, flags, seq, eight payload shapes and ten method behaviours incl. unserialisable results, unserialisable and unprintable exceptions and communication errors raised by the method; (refusal) pool-full accept loop with a client that reads, is gone, or stalls. Checked: no exception leaves the job/event/accept loop, the attacker's connection/slot is released, nothing runs for garbage, replies carry a request's seq, the witness client gets exactly its own correct reply and a new client is admitted. One genuine defect (refusal reply failure ends the accept loop) is a known finding.",
+            "Trusted: z3, meta-interpreter (paths re-run natively), codec/zlib contract stubs, fake sockets. Outside: real sockets and the kernel, memory exhaustion, BaseException-only errors raised by user methods, a peer that sends nothing on a connection without timeout.",
+            "DESIGN.md section 4 C05"),
 }
 
 NOT_YET = "check not built yet (build in progress; see DESIGN.md section 7)"
